@@ -444,6 +444,25 @@ Proof.
   split; [exact SD|]. split; [exact Fr|exact U].
 Qed.
 
+(* ... and by a family of EVERY size: tridiag(1, 4, 1) of order n with right-hand side (1, ..., 1); hence solve answers it with
+   finite components at binary64 for every n >= 1 *)
+Example thomas_dominant_float_nonvacuous_all_n : forall n, (1 <= n)%nat ->
+  let t := lapT n in let r := repeat 1%float n in
+  (wfT t /\ (1 <= tn t)%nat /\ length r = tn t /\
+  ((forall i, (i < tn t)%nat -> ffinite (nth i (tmain t) 0%float)) /\
+   (forall i, (i + 1 < tn t)%nat -> ffinite (nth i (tsub t) 0%float) /\ ffinite (nth i (tsup t) 0%float))) /\
+  ((forall i, (i < tn t)%nat -> (Rabs (FR (nth i (tmain t) 0%float)) <= bpow radix2 300)%R) /\
+   (forall i, (i + 1 < tn t)%nat ->
+      (FR (nth i (tsub t) 0%float) = 0%R \/ (bpow radix2 (-300) <= Rabs (FR (nth i (tsub t) 0%float)))%R) /\
+      (FR (nth i (tsup t) 0%float) = 0%R \/ (bpow radix2 (-300) <= Rabs (FR (nth i (tsup t) 0%float)))%R))) /\
+  (forall i, (i < tn t)%nat -> (bpow radix2 (-300) <= Rabs (FR (nth i (tmain t) 0%float)))%R) /\
+  (forall i, (i < tn t)%nat ->
+     (2 * (Rabs (FR (nth i (0%float :: tsub t) 0%float)) + Rabs (FR (nth i (tsup t) 0%float)))
+      <= Rabs (FR (nth i (tmain t) 0%float)))%R) /\
+  (forall i, (i < tn t)%nat -> ffinite (nth i r 0%float) /\ (Rabs (FR (nth i r 0%float)) <= bpow radix2 300)%R)) /\
+  exists x, tsolve (A := AF) t r = Ok x /\ length x = n /\ forall i, (i < n)%nat -> ffinite (nth i x 0%float).
+Proof. intros n Hn. cbv zeta. split; [exact (lapT_hyps n Hn)|exact (lapT_solved n Hn)]. Qed.
+
 (* why the pivots must be finite: sub = [-2^1023], main = [1; 2^1023], sup = [1], r = [1; 1].  beta_1 = 2^1023 + 2^1023 = +inf,
    y_1 = 2^1023 / inf = 0, and solve answers the FINITE vector [1; 0]; the true solution is close to [1/2; 1/2]. *)
 Example thomas_finite_answer_hides_overflow_example :
